@@ -454,3 +454,20 @@ def install(eng):
     import gwf.exceptions as _gex
     for _n in ("GWFError", "WorkflowError"):
         eng.exc_names[_n] = getattr(_gex, _n)
+
+    # text -> abstract path (used where a path is computed from strings, e.g. log file names)
+    vc.f_path_of_str = z3.Function("path_of_str", z3.StringSort(), vc.Path.sort())
+    eng.str_atoms["Path"] = lambda z: vc.f_path_of_str(z)
+
+    def m_joinpath(e, bb, args, kw, st, sink, n):
+        r = bb.recv.z
+        for a in args:
+            r = vc.f_join(r, e.coerce(a, vc.Path, n).z)
+        yield st, V(vc.Path, r)
+
+    eng.method_rules[("Path", "joinpath")] = m_joinpath
+    vc.Bytes = T.Atom("Bytes")
+    eng.ghost("file_bytes", T.MapT(vc.Path, vc.Bytes))      # content of log files written by the local pool (C13)
+    eng.contract("iface:File.write", self_type=vc.File, params={"self": vc.File, "data": vc.Bytes}, trusted=True,
+                 modifies=["ghost:file_bytes"], ensures=["file_bytes == store(old(file_bytes), self.path, data)"],
+                 note="a single write of the whole buffer to a freshly truncated file (partial writes by the OS out of scope)")
